@@ -4,5 +4,5 @@ import Proofs.PyAttr
 /-! list operators (`in`, `len`, `max`) are left folded: the bridges rewrite them with their own lemmas -/
 
 attribute [py_norm] Py.truthy Py.isExc Py.num? Py.eqb Py.strict2 Py.eq Py.ne Py.isb Py.is_ Py.isnot Py.cmp Py.lt Py.le Py.gt Py.ge
-  Py.not_ Py.and_ Py.or_ Py.ite_ Py.add Py.sub Py.ret Py.letv Py.cond Py.firstExc Py.eff Py.bind
+  Py.not_ Py.bool_ Py.and_ Py.or_ Py.ite_ Py.add Py.sub Py.ret Py.letv Py.cond Py.firstExc Py.eff Py.bind
   Py.val Py.isinstance_bool Py.isinstance_int Py.isinstance_str
